@@ -346,7 +346,9 @@ Proof.
   unfold roi_pv. rewrite Hpv. destruct Hform as [[sh [flat [-> _]]] | [elems [-> [Hlen HF]]]].
   - split; [apply fixed_encodable; [exact Hne | reflexivity | discriminate] | split; [cbn; eexists; reflexivity | exact Hm]].
   - split.
-    + unfold encodable, create_props_metadata, encode_prop, upcast_prop. cbn [fst snd p_vals p_missing].
+    + unfold encodable, create_props_metadata, encode_prop. cbn [fst snd].
+      rewrite (upcast_prop_vlen_id elems _) by (eapply Forall_impl; [|exact HF]; cbn; intros x [Hx _]; rewrite Hx; discriminate).
+      cbn [p_vals p_missing].
       destruct elems as [|e r]; [destruct elts; [destruct (keys_of_In [] name) as [H _]; destruct (H Hin) as [? [[] _]] | discriminate]|].
       assert (Hsame : forallb (fun x => dtype_eqb (v_dt x) (v_dt e)) r = true).
       { apply forallb_forall. intros x Hx. rewrite Forall_forall in HF. destruct (HF x (or_intror Hx)) as [-> _].
@@ -373,7 +375,8 @@ Proof.
   intros Hty Hin. unfold tprop. destruct (kf name) eqn:Hk; try reflexivity.
   destruct (roi_col_kinds kf elts name Hty Hin Hk) as [Hnv Hall].
   destruct (roi_arr_spec _ Hnv Hall) as [pv [Hpv [_ Hform]]]. rewrite col_values_length in Hpv, Hform.
-  unfold roi_pv. rewrite Hpv. destruct Hform as [[sh [flat [-> _]]] | [elems [-> _]]]; reflexivity.
+  unfold roi_pv. rewrite Hpv. destruct Hform as [[sh [flat [-> _]]] | [elems [-> [_ HF]]]]; [reflexivity|].
+  apply upcast_prop_vlen_id. eapply Forall_impl; [|exact HF]. cbn. intros x [Hx _]. rewrite Hx. discriminate.
 Qed.
 
 Lemma tprops_upcast kf elts : Forall (typedk kf) elts -> up_props (Some (tprops kf elts)) = tprops kf elts.
